@@ -38,6 +38,10 @@ FN_FLOORS = {
 }
 
 
+# counted per configuration where it differs: without std the streaming reader (ReadAdapter) and the io impls are not compiled
+FN_FLOORS_CFG = {"nostd": {"winter_utils": 93}}
+
+
 class FactsError(Exception):
     pass
 
@@ -162,6 +166,7 @@ def load_raw(config="default", crates=None):
         with open(os.path.join(d, fn)) as f:
             res[c] = json.load(f)
     for c, floor in FN_FLOORS.items():
+        floor = FN_FLOORS_CFG.get(config, {}).get(c, floor)
         if c in res and (crates is None or c in crates):
             n = len(res[c]["functions"])
             if n < floor * 0.9:
